@@ -465,10 +465,17 @@ def qtrace(case):
     return _QCACHE[key]
 
 
+def _tree_is_patched():
+    """docs/C11-fix-1.patch gives handle_message an `epoch` parameter: then the model's patched variant is the one to run"""
+    import inspect
+    from aioquic import tls
+    return "epoch" in inspect.signature(tls.Context.handle_message).parameters
+
+
 def q_encode(case):
     r = qtrace(case)
     c = case
-    t = [0, int(c["role"] == "client"), int(bool(c["psk"])), qenv()["early"] if c["psk"] else 0, int(bool(c.get("verify", 1))),
+    t = [int(_tree_is_patched()), int(c["role"] == "client"), int(bool(c["psk"])), qenv()["early"] if c["psk"] else 0, int(bool(c.get("verify", 1))),
          int(bool(c.get("reqcert", 0))), len(r.orcs)]
     for f in r.orcs:
         t += f
